@@ -287,3 +287,10 @@ def finding_key(script, res):
     op = (res.get("op") or "").split()
     codec = script[0].split()[2] if script and len(script[0].split()) > 2 else "?"
     return "%s:%s:%s" % (res["kind"], codec, " ".join(op[:2]))
+
+
+# Second part (added by the lead): mptcore/queue/queue_recv.c and queue_peek.c are anchors of C03 too — the
+# decoders as they are used through the framed input queue.  The coded-queue driver, model and generators of
+# C02 are run as an extra part of this check (seeded changes C03-4 and C03-6 live in those two files).
+from . import c02 as _c02  # noqa: E402
+extra_parts = [_c02] + list(getattr(_c02, "extra_parts", []))
